@@ -304,7 +304,9 @@ static void run_case(fcase *c, long idx) {
                 else if (ret != (int)strlen((char *)dest)) { snprintf(obs, sizeof obs, "returned %d but stored %zu characters ('%.60s')", ret, strlen((char *)dest), (char *)dest); vio("C11", c, t, idx, dmax, "returned-count-differs-from-stored", fitc, obs); }
             }
         } else {
-            if (ret >= 0 && !T_TRUNC[t]) { snprintf(obs, sizeof obs, "text needs %zu bytes, dmax=%zu, yet returned %d and stored '%.60s'", need, dmax, ret, (char *)dest); vio("C11", c, t, idx, dmax, "success-although-text-does-not-fit", c->one_dir ? "one-directive" : "multi", obs); }
+            /* a count that does not leave room for the terminator can never be a success of the non-truncating functions, whatever the engine's own rendering is */
+            if (ret >= (int)dmax && !T_TRUNC[t]) { snprintf(obs, sizeof obs, "dmax=%zu, yet returned %d (stored %zu characters: '%.50s')", dmax, ret, strnlen((char *)dest, dmax), (char *)dest); vio("C11", c, t, idx, dmax, "success-with-count-not-below-dmax", c->one_dir ? "one-directive" : "multi", obs); }
+            else if (ret >= 0 && !T_TRUNC[t]) { snprintf(obs, sizeof obs, "text needs %zu bytes, dmax=%zu, yet returned %d and stored '%.60s'", need, dmax, ret, (char *)dest); vio("C11", c, t, idx, dmax, "success-although-text-does-not-fit", c->one_dir ? "one-directive" : "multi", obs); }
         }
     }
     /* ---- stream targets: same characters as libc / as the buffer variant */
